@@ -265,6 +265,20 @@ Proof.
       apply skipn_all2. fold xs. lia.
 Qed.
 
+Lemma capacity_own st nx v want exact r D L :
+  sp_capacity c st nx v want exact = Some r ->
+  Permutation (created c nx) (vis st ++ D ++ L) ->
+  Permutation (created c (s_nx r)) (vis (s_st r) ++ (D ++ drops (s_evs r)) ++ (L ++ [])).
+Proof.
+  intros Hr Hinv. unfold sp_capacity in Hr. cbv zeta in Hr.
+  repeat match type of Hr with
+  | Some _ = Some _ => injection Hr as <-
+  | None = Some _ => discriminate Hr
+  | context [match ?x with _ => _ end] => destruct x eqn:?
+  | context [if ?x then _ else _] => destruct x eqn:?
+  end; cbn [ok_res panic_res s_nx s_st s_evs drops flat_map]; perm_count.
+Qed.
+
 Lemma app_nil_perm (l : list N) : Permutation (l ++ []) l.
 Proof. rewrite app_nil_r. reflexivity. Qed.
 
@@ -312,6 +326,10 @@ Proof.
     destruct (get_a v st) as [av|]; [|discriminate].
     destruct (idx <? N.of_nat (length (a_xs av))); injection Hr as <-;
       cbn [ok_res panic_res s_nx s_st s_evs leak_of drops flat_map]; perm_count.
+  - exact (capacity_own st nx v (Some n) false r D L Hr Hinv).
+  - exact (capacity_own st nx v (Some n) true r D L Hr Hinv).
+  - exact (capacity_own st nx v None false r D L Hr Hinv).
+  - exact (capacity_own st nx v None false r D L Hr Hinv).
 Qed.
 End StepOwn.
 
@@ -331,7 +349,7 @@ Fixpoint hist_leaks (c : cfg) (st : astate) (nx : N) (ops : list op) : list N :=
 Lemma spec_nx_mono c st nx o r : spec_step c st nx o = Some r -> nx <= s_nx r.
 Proof.
   intros H. destruct o; cbn [spec_step] in H; try discriminate;
-    unfold sp_offer, sp_take, sp_take_elem in H; cbv zeta in H;
+    unfold sp_offer, sp_take, sp_take_elem, sp_capacity in H; cbv zeta in H;
     repeat match type of H with
     | Some _ = Some _ => injection H as <-
     | None = Some _ => discriminate H
